@@ -255,6 +255,16 @@ func (c *Conn) process(f *Frame) {
 	c.cond.Broadcast()
 }
 
+// FaultNext applies a fault to the request that is about to be processed (for use from Before).
+func (c *Conn) FaultNext(f Fault) {
+	c.mu.Lock()
+	defer c.mu.Unlock()
+	if c.Faults == nil {
+		c.Faults = map[int]Fault{}
+	}
+	c.Faults[c.NReq] = f
+}
+
 // PendingFrames reports queued (held) frames.
 func (c *Conn) PendingFrames() int {
 	c.mu.Lock()
